@@ -18,7 +18,7 @@ PROPS = {
     'C05': {'units': ['chal'], 'kani': [], 'exclude': r'canonical_width'},
     'C06': {'units': ['bind', 'pchain'], 'kani': []},
     'C17': {'units': ['cache'], 'kani': []},
-    'C10': {'units': ['sched', 'tracegen', 'ptrace'], 'kani': []},
+    'C10': {'units': ['sched', 'tracegen', 'ptrace', 'vrfy'], 'kani': []},
     'C18': {'units': ['dsu', 'order', 'pphase', 'fvalid'], 'kani': []},
     'C14': {'units': ['pack', 'pack2', 'pack3'], 'kani': []},
     'C12': {'units': ['bits', 'chal', 'coef', 'rcair', 'prep'], 'kani': [], 'only': {'chal': r'canonical_width', 'prep': r'operand_[ac]_takes_part_in_the_witness_bus'}},
